@@ -158,7 +158,7 @@ def check_bulk(items, flag_mode, order, style, ascii_, ingest, res):
     except Exception as e:  # noqa
         v = ("bulk:raises-" + type(e).__name__, f"{type(e).__name__}: {e}")
     res.case(
-        case_repr={"bulk_response": text[:400]} if res.evaluations % 7919 == 13 else None,
+        case_repr={"bulk_response": text[:400]} if res.sample_now(7919) else None,
         nontrivial_key=text if items else None,
         outcome_key=("bulk", failed, n, v[0] if v else "ok"),
     )
@@ -312,7 +312,7 @@ def check_search(doc, feats, order, style, ascii_, res):
     except Exception as e:  # noqa
         v = ("search:raises-" + type(e).__name__, f"{type(e).__name__}: {e}")
     res.case(
-        case_repr={"search_response": text[:500]} if res.evaluations % 4999 == 21 else None,
+        case_repr={"search_response": text[:500]} if res.sample_now(4999) else None,
         nontrivial_key=text if full["hits"]["hits"] else None,
         outcome_key=("search", len(full["hits"]["hits"]), v[0] if v else "ok", tuple(feats)),
     )
@@ -469,7 +469,7 @@ def check_query_runner(total, size, total_form, timed_pattern, mode, res):
     except Exception as e:  # noqa
         v = ("query:raises-" + type(e).__name__, f"{type(e).__name__}: {e}")
     res.case(
-        case_repr={"query_runner": mode, "total_hits": total, "page_size": size, "pages": len(pages)} if res.evaluations % 211 == 5 else None,
+        case_repr={"query_runner": mode, "total_hits": total, "page_size": size, "pages": len(pages)} if res.sample_now(211) else None,
         nontrivial_key=("query", mode, total, size, total_form, timed_pattern),
         outcome_key=("query", mode, len(pages), v[0] if v else "ok"),
     )
